@@ -368,6 +368,10 @@ func (fgen *funcGen) irInvokeTerm(new ir.Terminator, old *ast.InvokeTerm) error 
 	}
 	// The invokee type is always pointer to function type.
 	ptrToSig := types.NewPointer(sig)
+	if n, ok := old.AddrSpace(); ok {
+		// (optional) Address space of the callee.
+		ptrToSig.AddrSpace = irAddrSpace(n)
+	}
 	invokee, err := fgen.irValue(ptrToSig, old.Invokee())
 	if err != nil {
 		return errors.WithStack(err)
@@ -469,6 +473,10 @@ func (fgen *funcGen) irCallBrTerm(new ir.Terminator, old *ast.CallBrTerm) error 
 	}
 	// The callee type is always pointer to function type.
 	ptrToSig := types.NewPointer(sig)
+	if n, ok := old.AddrSpace(); ok {
+		// (optional) Address space of the callee.
+		ptrToSig.AddrSpace = irAddrSpace(n)
+	}
 	callee, err := fgen.irValue(ptrToSig, old.Callee())
 	if err != nil {
 		return errors.WithStack(err)
